@@ -1,3 +1,3 @@
 SPECIFICATION Spec
-CONSTANTS M = 6 V = 3 Sample = 3000 OneVersion = FALSE OlderMain = TRUE
+CONSTANTS M = 6 V = 3 Sample = 400 OneVersion = FALSE OlderMain = TRUE
 INVARIANTS NoPanic SelectedIsMaxSeen Confluent Sufficient Minimal PrunedBelowFull
